@@ -27,6 +27,7 @@ J gen_seq(const std::string& prop, uint64_t run_seed, const std::string& tier) {
   knobs.set("be", prop == "C13" ? kn.below(3) : (kn.chance(1, 5) ? (uint64_t)BE_TAG : (uint64_t)BE_DIRECT));
   knobs.set("rm", kn.below(2));
   knobs.set("maxreq", kn.chance(1, 4) ? 4096 : (1u << 20));
+  knobs.set("fill", kn.below(4) == 0 ? kn.range(1, 2) : 0);   // fresh memory: mostly 0xAA, sometimes all-zero or all-ones
   plan.set("knobs", knobs);
   GenProfile gp; gp.max_depth = 3; gp.max_kids = 3; gp.big_len_cap = 200;
   J conns = J::arr();
